@@ -231,32 +231,32 @@ def joint_class():
 
 
 def build(cls, doms, labeling, container):
+    """container: list / tuple (field_names + field_domains, the named constructors of the MDP tables) or the strings
+    "fields" / "fieldsl": the index is built as TableIndex(fields=[Field(name, plain tuple / plain list)]), so the
+    domains are NOT domaintuples (their .index is the sequence method) and every class goes through its plain
+    constructor cls(data=, table_index=)."""
     from msdm.core.table import Table, TableIndex, ProbabilityTable
+    from msdm.core.table.table import TableDistribution
+    from msdm.core.table.tableindex import Field
     from msdm.core.mdp.tables import StateTable, StateActionTable, StateActionNextStateTable
     from msdm.core.mdp.tabularpolicy import TabularPolicy
-    pd = [container(conc(v, labeling) for v in d) for d in doms]
     shape = tuple(len(d) for d in doms)
     data = np.arange(int(np.prod(shape)), dtype=float).reshape(shape)
-    names = ["f0", "f1", "f2"][:len(doms)]
-    if cls == "Table":
-        return Table(data=data, table_index=TableIndex(field_names=names, field_domains=pd))
-    if cls == "ProbabilityTable":
-        return ProbabilityTable(data=data, table_index=TableIndex(field_names=names, field_domains=pd))
-    if cls == "JointProbabilityTable":
-        return joint_class()(data=data, table_index=TableIndex(field_names=names, field_domains=pd))
-    if cls == "TableDistribution":
-        from msdm.core.table.table import TableDistribution
-        return TableDistribution(data=data, table_index=TableIndex(field_names=names, field_domains=pd))
+    mdp = cls in ("StateTable", "StateActionTable", "TabularPolicy", "StateActionNextStateTable")
+    names = (["state", "action", "next_state"] if mdp else ["f0", "f1", "f2"])[:len(doms)]
+    klass = {"Table": Table, "ProbabilityTable": ProbabilityTable, "TableDistribution": TableDistribution,
+             "StateTable": StateTable, "StateActionTable": StateActionTable, "TabularPolicy": TabularPolicy,
+             "StateActionNextStateTable": StateActionNextStateTable}.get(cls) or joint_class()
+    if container in ("fields", "fieldsl"):
+        seq = tuple if container == "fields" else list
+        fields = [Field(n, seq(conc(v, labeling) for v in d)) for n, d in zip(names, doms)]
+        return klass(data=data, table_index=TableIndex(fields=fields))
+    pd = [container(conc(v, labeling) for v in d) for d in doms]
     if cls == "StateTable":
         return StateTable.from_state_list(pd[0], data)
-    if cls == "StateActionTable":
-        return StateActionTable.from_state_action_lists(pd[0], pd[1], data)
-    if cls == "TabularPolicy":
-        return TabularPolicy.from_state_action_lists(pd[0], pd[1], data)
-    if cls == "StateActionNextStateTable":
-        return StateActionNextStateTable(
-            data=data, table_index=TableIndex(field_names=("state", "action", "next_state"), field_domains=pd))
-    raise ValueError(cls)
+    if cls in ("StateActionTable", "TabularPolicy"):
+        return klass.from_state_action_lists(pd[0], pd[1], data)
+    return klass(data=data, table_index=TableIndex(field_names=names, field_domains=pd))
 
 
 def build_from_dict(cls, doms, labeling):
@@ -662,6 +662,12 @@ def judge_transition(ctx, table, state, tr, obj, root_names, objcls, labeling, c
         d = None
         if tr["garbled"]:
             ctx.count("numpy_axis_order_quirk(key,slice,list)_not_compared")
+        elif cname == "fieldsl" and ("W" in tr["cls"] or shape == "tup(key+slice+list)"):
+            # "a component equal to the whole domain acts as a slice" (DRIFT-level) is a `selector == domain` test in
+            # the code: on a domain kept as a plain list it never holds for a tuple and does hold for an equal list
+            # (which then is a slice, not an integer list, for numpy). R describes tuple domains; both shapes are
+            # outside the statement, so they are counted and not compared for this representation.
+            ctx.count("whole_domain_component_on_list_domain_not_compared")
         elif tr["rst"] == "err":
             if st == "ok":
                 d = f"reference machine raises {tr['rfam']}, code returned a value"
@@ -710,10 +716,13 @@ def judge_transition(ctx, table, state, tr, obj, root_names, objcls, labeling, c
     return agreed[0]
 
 
+CONTAINERS = ["list", "fields", "tuple", "fieldsl"]
+
+
 def combos_for(tid, nf):
     out = []
     for ci, cls in enumerate(CLASSES[nf]):
-        out.append((cls, LABELINGS[(tid + ci) % len(LABELINGS)], "list" if (tid + ci) % 2 == 0 else "tuple"))
+        out.append((cls, LABELINGS[(tid + ci) % len(LABELINGS)], CONTAINERS[(tid // 2 + ci) % len(CONTAINERS)]))
     for ci, cls in enumerate({1: ["StateTable"], 2: ["StateActionTable", "TabularPolicy"], 3: []}[nf]):
         out.append((cls, LABELINGS[(tid + ci + 2) % len(LABELINGS)], "dict"))
     return out
@@ -746,7 +755,7 @@ def tlc_states(ctx, tables, workers=8):
 def judge_table(ctx, table, tid, states, combos, *, mutate=None, build_hook=None, only_state=None, only_sel=None):
     """Replay every state's chain on the real objects and execute every transition out of it."""
     for cls, labeling, cname in combos:
-        container = list if cname == "list" else tuple
+        container = {"list": list, "tuple": tuple}.get(cname, cname)
         if cname == "dict":
             root = build_from_dict(cls, table["doms"], labeling)
         else:
